@@ -3,6 +3,7 @@ import re
 from .model import *
 from .facts import Site, op_place, Call, proj_field_name
 from .linear import analyse, LinearReport, owned_locals
+from .fields import fields
 
 EXPLANATION = ("decides necessary structural conditions only: ownership of a job inside every function of the factory -- Job / WorkerMessage / "
                "FactoryMessage cannot be copied; every owned Job value (K11 linear-resource analysis over all factory bodies) is, on every path, moved into "
@@ -243,10 +244,11 @@ def r5(run, db):
                     nm = [proj_field_name(e) for e in p[1] if e.startswith("f:")]
                     if nm:
                         touched.add(nm[0])
-    run.check("message_queue" not in touched and "pending_key_counts" not in touched, "replace|queue-untouched", "replace_worker mutably touches only %s (not the queue, not the pending-key table)" % sorted(touched),
-              "replace_worker mutates %s directly" % sorted(touched & {"message_queue", "pending_key_counts"}), rw.where())
+    F = fields(db)
+    run.check(F.wp_queue not in touched and F.wp_pending not in touched, "replace|queue-untouched", "replace_worker mutably touches only %s (not the queue, not the pending-key table)" % sorted(touched),
+              "replace_worker mutates %s directly" % sorted(touched & {F.wp_queue, F.wp_pending}), rw.where())
     tk = [c for c in rw.calls() if c.matches(r"mem::take$")]
-    run.check(len(tk) == 1 and any(proj_field_name(e) == "curr_jobs" for r in rw.origins(tk[0].args[0]) for e in r.get("proj", []) + r.get("trail", []) if e.startswith("f:")), "replace|takes-inflight-only", "only the in-flight map is taken", "replace_worker takes something other than curr_jobs", rw.where())
+    run.check(len(tk) == 1 and any(proj_field_name(e) == F.wp_inflight for r in rw.origins(tk[0].args[0]) for e in r.get("proj", []) + r.get("trail", []) if e.startswith("f:")), "replace|takes-inflight-only", "only the in-flight map is taken", "replace_worker takes something other than curr_jobs", rw.where())
     dj_f = run.need(db.one(r"WorkerProperties::<TKey, TMsg>::dispatch_job$"), "dispatch_job")
     run.saw(len(dj_f.blocks), dj_f)
     cast = [c for c in dj_f.calls() if c.matches(r"::cast$")]
@@ -363,7 +365,7 @@ def r7(run, db):
         for site, t in wf.switches():
             if t["dty"] == "bool":
                 roots = wf.origins(t["discr"])
-                if any(any(proj_field_name(e) == "is_draining" for e in r.get("proj", []) + r.get("trail", []) if e.startswith("f:")) for r in roots) or any(r["k"] == "const" for r in roots):
+                if any(any(proj_field_name(e) == fields(db).wp_draining for e in r.get("proj", []) + r.get("trail", []) if e.startswith("f:")) for r in roots) or any(r["k"] == "const" for r in roots):
                     fe = wf.edge_of(site, "false")
                     if fe and wf.edge_dominates(fe, route[0].site):
                         dr.append(site)
